@@ -1,0 +1,11 @@
+//go:build verif
+
+package chain
+
+// VerifMinerDeleteRound forgets a round so that a driver can start the same round number afresh
+// (build tag `verif` only; add-only).
+func (c *Chain) VerifMinerDeleteRound(n int64) {
+	c.roundsMutex.Lock()
+	defer c.roundsMutex.Unlock()
+	delete(c.rounds, n)
+}
